@@ -280,3 +280,117 @@ Proof.
   intros Ht Hb Ho Hv Hl. unfold step. rewrite Ht, Hb, Ho, Hv.
   apply Nat.eqb_neq in Hl. rewrite Hl. reflexivity.
 Qed.
+
+(* ---- structural operations preserve cells ---------------------------------------- *)
+
+(* the k-th allocated vector carries the k-th built column *)
+Lemma alloc_cols_nth built : forall s hs sids s',
+  alloc_cols s built hs sids = Some s' ->
+  forall k h b, nth_error hs k = Some h -> nth_error built k = Some b ->
+  exists v, getv s' h = Some v /\ vals v = fst (fst b) /\ nm v = snd (fst b) /\ dt v = snd b.
+Proof.
+  induction built as [|[[l n] d] bt IH]; intros s hs sids s' H k h b Hh Hb; simpl in H.
+  - destruct k; discriminate.
+  - destruct hs as [|h0 ht]; [discriminate|]. destruct sids as [|i it]; [discriminate|].
+    destruct (aget (heap s) h0) eqn:Hf; [discriminate|].
+    set (s1 := mkSt (heap s ++ [(h0, OV (mkVec l i n d None))]) (register (reg s) h0 i)) in *.
+    destruct k as [|k]; simpl in Hh, Hb.
+    + inversion Hh; inversion Hb; subst.
+      assert (Hg1 : aget (heap s1) h = Some (OV (mkVec l i n d None))) by (unfold s1; simpl; apply aget_app_none; exact Hf).
+      pose proof (alloc_cols_frame _ _ _ _ _ H _ _ Hg1) as Hg'. unfold getv. rewrite Hg'.
+      eexists. split; [reflexivity|]. simpl. auto.
+    + eapply IH; eassumption.
+Qed.
+
+Lemma build_all_nth cs : forall s built k c,
+  build_all s cs = Some built -> nth_error cs k = Some c ->
+  exists b, nth_error built k = Some b /\ build_col s c = Some b.
+Proof.
+  induction cs as [|c0 t IH]; intros s built k c Hb Hc; [destruct k; discriminate|].
+  simpl in Hb. destruct (build_col s c0) as [b0|] eqn:E0; [|discriminate].
+  destruct (build_all s t) as [bt|] eqn:Et; [|discriminate]. inversion Hb; subst.
+  destruct k as [|k]; simpl in *.
+  - inversion Hc; subst. exists b0. auto.
+  - eapply IH; eassumption.
+Qed.
+
+(* What the k-th column of a freshly produced table holds, for each way of specifying it:
+   a copy keeps the cells (>> leaves existing columns untouched), a row selection applies the
+   SAME index list to every column it is used for, << appends the new rows at the end. *)
+Theorem new_table_cells s ht cs chs sids tsid' s' k c h :
+  step s (ONewTab ht cs chs sids tsid') = (s', Ok) ->
+  nth_error cs k = Some c -> nth_error chs k = Some h ->
+  exists v, getv s' h = Some v /\
+    match c with
+    | CFrom src None => exists vs, getv s src = Some vs /\ vals v = vals vs /\ nm v = nm vs
+    | CFrom src (Some idx) => exists vs, getv s src = Some vs /\ vals v = select (vals vs) idx SNone /\ nm v = nm vs
+    | CCat src extra => exists vs, getv s src = Some vs /\ vals v = vals vs ++ extra
+    | CLit l n => vals v = l /\ nm v = n
+    | CRes l n => vals v = l /\ nm v = n
+    end.
+Proof.
+  intros H Hc Hh. unfold step in H.
+  destruct (build_all s cs) as [built|] eqn:Hb; [|inversion H].
+  destruct (negb (all_same_len built)); [inversion H|].
+  destruct (alloc_cols s built chs sids) as [s1|] eqn:E; [|inversion H].
+  destruct (aget (heap s1) ht) eqn:Hf; inversion H; subst. clear H.
+  destruct (build_all_nth _ _ _ _ _ Hb Hc) as [b [Hnb Hbc]].
+  destruct (alloc_cols_nth _ _ _ _ _ E _ _ _ Hh Hnb) as [v [Hv [Hvals [Hnm _]]]].
+  exists v. split.
+  - unfold getv in *. simpl. rewrite aget_app_other; [exact Hv|]. intros ->.
+    rewrite Hf in Hv. discriminate.
+  - destruct c as [src [idx|]|src extra|l n|l n]; simpl in Hbc.
+    + destruct (getv s src) as [vs|]; [|discriminate].
+      destruct (forallb _ idx); [|discriminate]. inversion Hbc; subst. exists vs. simpl in *. auto.
+    + destruct (getv s src) as [vs|]; [|discriminate]. inversion Hbc; subst. exists vs. simpl in *. auto.
+    + destruct (getv s src) as [vs|]; [|discriminate]. inversion Hbc; subst. exists vs. simpl in *. auto.
+    + inversion Hbc; subst. simpl in *. auto.
+    + inversion Hbc; subst. simpl in *. auto.
+Qed.
+
+(* ---- transposing twice gives back the original cells ------------------------------ *)
+Section Transpose.
+Context {A : Type} (d : A).
+
+Definition transpose (m : list (list A)) (nrows : nat) : list (list A) :=
+  map (fun i => map (fun col => nth i col d) m) (seq 0 nrows).
+
+Lemma transpose_length m n : List.length (transpose m n) = n.
+Proof. unfold transpose. rewrite map_length, seq_length. reflexivity. Qed.
+
+Lemma transpose_nth m n i j :
+  i < n -> j < List.length m -> nth j (nth i (transpose m n) []) d = nth i (nth j m []) d.
+Proof.
+  intros Hi Hj. unfold transpose.
+  rewrite (nth_indep _ [] (map (fun col => nth 0 col d) m)) by (rewrite map_length, seq_length; exact Hi).
+  rewrite (map_nth (fun i0 => map (fun col => nth i0 col d) m) (seq 0 n) 0 i).
+  rewrite seq_nth by exact Hi. simpl.
+  rewrite (nth_indep _ d (nth i [] d)) by (rewrite map_length; exact Hj).
+  rewrite (map_nth (fun col => nth i col d) m [] j). reflexivity.
+Qed.
+
+Lemma transpose_row_length m n i : i < n -> List.length (nth i (transpose m n) []) = List.length m.
+Proof.
+  intros Hi. unfold transpose.
+  rewrite (nth_indep _ [] (map (fun col => nth 0 col d) m)) by (rewrite map_length, seq_length; exact Hi).
+  rewrite (map_nth (fun i0 => map (fun col => nth i0 col d) m) (seq 0 n) 0 i).
+  rewrite map_length. reflexivity.
+Qed.
+
+(* for a rectangular m with ncols columns of nrows rows: T (T m) = m *)
+Theorem transpose_involutive m nrows :
+  Forall (fun col => List.length col = nrows) m ->
+  transpose (transpose m nrows) (List.length m) = m.
+Proof.
+  intros Hrect. apply (nth_ext _ _ [] []).
+  - apply transpose_length.
+  - rewrite transpose_length. intros j Hj.
+    assert (Hcol : List.length (nth j m []) = nrows).
+    { rewrite Forall_forall in Hrect. apply Hrect. apply nth_In. exact Hj. }
+    apply (nth_ext _ _ d d).
+    + rewrite transpose_row_length by exact Hj. rewrite transpose_length. symmetry. exact Hcol.
+    + rewrite transpose_row_length by exact Hj. rewrite transpose_length. intros i Hi.
+      rewrite transpose_nth; [|exact Hj|rewrite transpose_length; exact Hi].
+      apply transpose_nth; [exact Hi|exact Hj].
+Qed.
+End Transpose.
